@@ -520,8 +520,13 @@ def r8_scipy(ctx):
             vals = c[2][1] if len(c[2]) > 1 else None
             good_vals = vals is not None and Q.unwrap(vals) == Q.sub(("call", ("glob", "verde.base.utils.check_fit_input"), (("param", "coordinates"), ("param", "data"), ("param", "weights")), (), 0), 1)
             ok = True if okk and good_vals else (False if not okk else None)
-        ctx.check("R8", qn + "|constructs-cls(points, values, **kwargs)", ok, "fit builds interpolator_class(points, raveled data, **kwargs)",
-                  bad="the interpolator keyword arguments (rescale) are not passed to the SciPy class", fn=qn)
+        why8 = "the interpolator keyword arguments (rescale) are not passed to the SciPy class"
+        if ok is None:
+            made = [e.data[2] for e in p.events if e.kind == "setattr" and e.data[0] == Q.SELF and e.data[1] == "interpolator_"]
+            if made and made[-1][0] == "call" and any(x[0] == "attr" and x[1] == Q.SELF and x[2] not in ("rescale", "method", "extra_args") for x in walk(made[-1][1]) if isinstance(x, tuple) and x):
+                # class / keyword arguments read back from an attribute of the instance: on a refit these are the ones of an earlier configuration
+                ok, why8 = False, "the SciPy class / its keyword arguments are read from instance state (%s) instead of this call's _get_interpolator(): set_params between fits is ignored" % show(made[-1][1])[:60]
+        ctx.check("R8", qn + "|constructs-cls(points, values, **kwargs)", ok, "fit builds interpolator_class(points, raveled data, **kwargs)", bad=why8, fn=qn)
 
 
 def check(ctx):
